@@ -104,6 +104,11 @@ def ensure_mir(want=('bin_off', 'milu_off')):
 
 # --------------------------------------------------------------------------- known findings
 
+# Specs that do not care about most callees (metrics, logging, locks, formatting) declare unknown callees harmless -- EXCEPT operations on
+# the values and containers a verdict could depend on: an unmodelled one of those taints the path (no verdict) instead of being guessed.
+IRRELEVANT = re.compile(r'^(?!.*(?:(?<![A-Za-z])Vec(?![a-z])|LinkedList|VecDeque|HashMap|HashSet|BTree|mem::|Iter|Option::|Result::|slice::|Extend|FromIterator|\bBytes|BytesMut|String::|\bstr>?::|PartialEq|PartialOrd|\bOrd\b|cmp::|checked_|wrapping_|saturating_|overflowing_|Atomic|Duration|Instant::(?!now))).*$')
+
+
 class Known:
     def __init__(self, path=None):
         self.path = path or os.path.join(VERIF, 'known-findings.txt')
